@@ -1,7 +1,7 @@
 """C16 native BGP wire format: Model/Wire.v + harness internal/bgp/native TestVerifWire"""
 import json
 
-CLOSURE = ["Model/Wire.v", "Proofs/WireP.v", "Proofs/WireReadP.v", "Proofs/WireDecP.v", "Proofs/WireP_prefix.v"]
+CLOSURE = ["Model/Wire.v", "Proofs/WireP.v", "Proofs/WireReadP.v", "Proofs/WireDecP.v", "Proofs/WireSizeP.v", "Proofs/WireAcceptP.v", "Proofs/WireP_prefix.v"]
 PKG = "internal/bgp/native"
 
 
